@@ -216,6 +216,9 @@ def run(ctx: Ctx):
     ctx.assumptions += ["known ids: IANA zones of the active provider; unknown ids are attached as TZID parameters on floating values",
                         "the process-wide cache of parsed VTIMEZONEs is emptied before each case (history dependence is C12's subject)",
                         "add_missing_timezones is called with a short date window to keep generation fast (window choice is C13's subject)"]
+    # ------------------------------------------------------------- FRESH: history independence of returned objects (spec/Fresh.tla)
+    from vf import fresh
+    fresh.step(ctx, "C18")
     return ctx.finish(rule=(
         "every state of the model (<=2/3 uses over 3 ids x 4 sites, 0..2 VTIMEZONEs per id) as an API-built and as a parsed "
         "calendar under both providers, queries + add_missing_timezones twice; random richer calendars validated by TLC; "
